@@ -336,7 +336,11 @@ class _AnonymousObject(dict):
     """
 
     def __getattr__(self, key: str) -> Any:
-        return self.__getitem__(key)
+        try:
+            return self.__getitem__(key)
+        except KeyError:
+            # What `getattr`, `hasattr` and `copy` expect of a missing name.
+            raise AttributeError(key) from None
 
     def __setattr__(self, key: str, value: Any):
         return self.__setitem__(key, value)
